@@ -60,6 +60,11 @@ def separator_strings():
         for body in (("a", "b"), ("a", "X"), ("a", "b", "c"), ("a", "X", "c"), ("a", "b", "b"), ("", "a")):
             g.append(sep.join(body))
             g.append(sep.join(body) + sep)
+        # an unchanged head that holds the separator *and* a "\n", followed by a varying tail
+        for tail in ("r\n", "X\n", "r\ns\n", "", "r", "r\nX\n"):
+            g.append("p" + sep + "q\n" + tail)
+        g.append(sep + "\nr\n")
+        g.append(sep + "\nX\n")
         # mixtures with \n
         g.append("a\nb" + sep + "c")
         g.append("a" + sep + "b\nc\n")
